@@ -84,6 +84,7 @@ T_C12_FailedCallNoChange == [][C12_FailedCallNoChange]_tv
 T_C12_FailureRefunds == [][C12_FailureRefunds]_tv
 T_C12_SuccessAckKeeps == [][C12_SuccessAckKeeps]_tv
 T_C12_OthersKeepBooks == [][C12_OthersKeepBooks]_tv
+T_C12_DonationNotBooked == [][C12_DonationNotBooked]_tv
 T_C12_LegacyMigrateRebases == [][C12_LegacyMigrateRebases]_tv
 T_XI_OpenRule == [][XI_OpenRule]_tv
 T_XI_ConnectRule == [][XI_ConnectRule]_tv
